@@ -1,6 +1,8 @@
 package props
 
 import (
+	"crypto/sha256"
+	"encoding/hex"
 	"encoding/json"
 	"fmt"
 	"os"
@@ -14,9 +16,12 @@ import (
 	gcgl "github.com/consensys/gnark-crypto/field/goldilocks"
 	"github.com/wormhole-foundation/example-near-light-client/plonk/gates"
 	"github.com/wormhole-foundation/example-near-light-client/types"
+	"github.com/wormhole-foundation/example-near-light-client/variables"
 
+	"verifharness/circ"
 	"verifharness/engine"
 	"verifharness/fw"
+	"verifharness/inst"
 	"verifharness/ref"
 )
 
@@ -134,6 +139,80 @@ func expectedDesc(s ref.GateSpec) string {
 
 // RaceWorkload is run by the -race build: concurrent resolutions and concurrent chip
 // creation; prints one JSON line with what it did.
+// RaceReaders: the document readers used concurrently (the web API deserialises request
+// bodies in concurrent handlers): every goroutine must read exactly what a single-threaded
+// read returns, and the race detector watches the readers' shared state.
+func RaceReaders(reps int) {
+	type doc struct {
+		in  *inst.Instance
+		raw []byte
+		vd  []byte
+	}
+	var docs []doc
+	for _, n := range []string{"A_testdata", "B_random_CGZ", "A_testjson"} {
+		in := getInst(n)
+		raw, _ := os.ReadFile(in.Files.Proof)
+		vd, _ := os.ReadFile(in.Files.VD)
+		docs = append(docs, doc{in, raw, vd})
+	}
+	sum := func(p interface{}) string {
+		h := sha256.New()
+		for _, l := range circ.Leaves(p) {
+			h.Write([]byte(l.Path))
+			h.Write(l.Big().Bytes())
+		}
+		return hex.EncodeToString(h.Sum(nil)[:8])
+	}
+	base := make([][3]string, len(docs))
+	for i, d := range docs {
+		p, _ := variables.DeserializeProofWithPublicInputs(types.ReadProofWithPublicInputs(d.in.Files.Proof))
+		v := variables.DeserializeVerifierOnlyCircuitData(types.ReadVerifierOnlyCircuitData(d.in.Files.VD))
+		c := types.ReadCommonCircuitData(d.in.Files.Common)
+		base[i] = [3]string{sum(&p), sum(&v), fmt.Sprintf("%d/%d/%d", len(c.GateIds), c.DegreeBits, len(c.KIs))}
+	}
+	var wg sync.WaitGroup
+	var mu sync.Mutex
+	reads, bad := 0, 0
+	for g := 0; g < 12; g++ {
+		wg.Add(1)
+		go func(g int) {
+			defer wg.Done()
+			for k := 0; k < reps; k++ {
+				i := (g + k) % len(docs)
+				d := docs[i]
+				var got [3]string
+				func() {
+					defer func() {
+						if r := recover(); r != nil {
+							got[0] = "panic"
+						}
+					}()
+					var p variables.ProofWithPublicInputs
+					var v variables.VerifierOnlyCircuitData
+					if (g+k)%2 == 0 {
+						p, _ = variables.DeserializeProofWithPublicInputs(types.ReadProofWithPublicInputsFromRequest(d.raw))
+						v = variables.DeserializeVerifierOnlyCircuitData(types.ReadVerifierOnlyCircuitDataFromRequest(d.vd))
+					} else {
+						p, _ = variables.DeserializeProofWithPublicInputs(types.ReadProofWithPublicInputs(d.in.Files.Proof))
+						v = variables.DeserializeVerifierOnlyCircuitData(types.ReadVerifierOnlyCircuitData(d.in.Files.VD))
+					}
+					c := types.ReadCommonCircuitData(d.in.Files.Common)
+					got = [3]string{sum(&p), sum(&v), fmt.Sprintf("%d/%d/%d", len(c.GateIds), c.DegreeBits, len(c.KIs))}
+				}()
+				mu.Lock()
+				reads++
+				if got != base[i] {
+					bad++
+				}
+				mu.Unlock()
+			}
+		}(g)
+	}
+	wg.Wait()
+	b, _ := json.Marshal(map[string]any{"concurrent_reads": reads, "reads_differing_from_single_threaded": bad})
+	fmt.Println("RACEWORK " + string(b))
+}
+
 func RaceWorkload(reps int) {
 	ids := append(gateGrid(true), unsupportedIDs()...)
 	var wg sync.WaitGroup
@@ -199,7 +278,7 @@ func RaceWorkload(reps int) {
 }
 
 // runRaceBinary builds (cached) and runs the -race binary; returns reports found.
-func runRaceBinary(reps int) (reports int, work map[string]any, err error) {
+func runRaceBinary(reps int, part ...string) (reports int, work map[string]any, err error) {
 	root := fw.VerifRoot()
 	// the harness sources live next to the running binary (<dir>/bin/vcheck, <dir>/harness)
 	exe, eerr := os.Executable()
@@ -216,7 +295,7 @@ func runRaceBinary(reps int) (reports int, work map[string]any, err error) {
 	}
 	logBase := filepath.Join(root, "scratch", fmt.Sprintf("race_%d", os.Getpid()))
 	os.MkdirAll(filepath.Dir(logBase), 0o755)
-	cmd := exec.Command(bin, "racework", strconv.Itoa(reps))
+	cmd := exec.Command(bin, append([]string{"racework", strconv.Itoa(reps)}, part...)...)
 	cmd.Env = append(os.Environ(), "GORACE=halt_on_error=0 log_path="+logBase)
 	out, e := cmd.CombinedOutput()
 	matches, _ := filepath.Glob(logBase + ".*")
